@@ -15,6 +15,7 @@
 -/
 import SonicSpec.Proofs.ConcOrder
 import SonicSpec.Proofs.ConcLoad
+import SonicSpec.Proofs.ConcOptdec
 namespace SonicSpec.Props.C09
 open SonicSpec.Conc SonicSpec.Conc.PMap
 
@@ -181,6 +182,58 @@ theorem PreFix.history_independence_partial (compile : τ → χ → π) (h₁ h
   · rw [hyp]
 
 end HistPre
+
+/-! ### the alternative decoder's compiler bookkeeping (depth / counts / namedPtr) and its Pretouch rounds -/
+
+section Optdec
+open SonicSpec.Conc.Optdec
+
+/-- the decoder cached for a type by a Pretouch round does not depend on the other members of the round nor
+    on the order the map iteration visits them: every member that was not cached yet gets exactly the decoder
+    a fresh compiler builds for it (`pretouchType` allocates `newCompiler()` per type, decoder.go:137) -/
+theorem optdec_pretouch_round_independent (maxInline : Nat) (cache : List (OTy × ODec)) (ts : List OTy) (t : OTy)
+    (hc : lookup t cache = none) (ht : t ∈ ts) :
+    lookup t (pretouchRound maxInline cache ts) = some (compileFresh maxInline t) := by
+  rw [lookup_pretouchRound, hc]
+  simp [ht]
+
+/-- ... and over all rounds of `pretouchRec` (whatever types the compilers entered, `subs`): every decoder in the
+    cache afterwards was there before or is the fresh-compiler decoder of its own type -/
+theorem optdec_pretouch_rec_independent (maxInline : Nat) (subs : OTy → List OTy) (rounds : Nat)
+    (cache : List (OTy × ODec)) (ts : List OTy) (t : OTy) (d : ODec)
+    (h : lookup t (pretouchRec maxInline subs rounds cache ts) = some d) :
+    lookup t cache = some d ∨ d = compileFresh maxInline t :=
+  lookup_pretouchRec maxInline subs t d rounds cache ts h
+
+/-- the counter-model (one compiler, hence one `counts`, shared by the members of a round): a struct with
+    >= 50 fields compiled after another member is cached as a decoder that DEFERS TO ITSELF (endless
+    recursion at decode time), and whether that happens depends on the iteration order -/
+theorem Shared.pretouch_round_depends_on_members :
+    let wide := OTy.str 1 false 52 (.fcons .prim .fnil)
+    lookup wide (Shared.pretouchRound 3 [] [.seq .prim, wide]) = some (.defer wide) ∧
+    lookup wide (Shared.pretouchRound 3 [] [wide, .seq .prim]) = some (compileFresh 3 wide) ∧
+    compileFresh 3 wide ≠ .defer wide := by
+  decide
+
+/-- issue 379 rule, code as it is (namedPtr test BEFORE the depth/width test): the element struct of a defined
+    pointer type is ALWAYS compiled in place - never deferred to the cached decoder of the element type (which
+    would honour its pointer-receiver Unmarshaler), whatever the depth, the inline bound and `counts` -/
+theorem optdec_namedptr_elem_in_place (maxInline id nf : Nat) (unm basic : Bool) (fields : OTy) (cs : CS) :
+    ∃ fs cs', compileAux true maxInline (.nptr (.str id unm nf fields)) basic cs = (.ptr (.body id fs), cs') := by
+  simp [compileAux]
+
+/-- hence, at that node, the inline depth the codec happened to be compiled with is irrelevant as far as
+    the shape "in place / deferred / Unmarshaler" goes; the counter-model with the depth test first defers the
+    element below the bound and compiles it in place above it -/
+theorem optdec_namedptr_depth_test_first_depends_on_inline_depth :
+    let item := OTy.str 7 true 2 (.fcons .prim (.fcons .prim .fnil))
+    let t := OTy.seq (.seq (.seq (.nptr item)))
+    (compileAux false 3 t false CS.fresh).1 = .seq (.seq (.seq (.ptr (.defer item)))) ∧
+    (compileAux false 8 t false CS.fresh).1 = (compileAux true 8 t false CS.fresh).1 ∧
+    (compileAux true 3 t false CS.fresh).1 = (compileAux true 8 t false CS.fresh).1 := by
+  decide
+
+end Optdec
 
 /-! ### non-vacuity -/
 
